@@ -332,6 +332,8 @@ func C10(ctx *core.Ctx) {
 		c10ParseCache(ctx, cc)
 		c10IndexComplete(ctx, cc)
 		c10ForcedModifiers(ctx, cc)
+		c10IncludeDir(ctx, cc)
+		c10JSONAnnotations(ctx, cc)
 	}
 	gs, err := peg.ParseSource(string(src))
 	if err != nil {
